@@ -360,6 +360,13 @@ func ruleChunkMergeStep(c *Ctx, r *Rep, tier string) {
 					continue
 				}
 				kx, ky := m.key(bo.X), m.key(bo.Y)
+				// a difference on one side is a sum on the other:
+				// (cur.Begin − acc.End) ≤ near  ≡  cur.Begin ≤ acc.End + near
+				if sub, isSub := bo.X.(*ssa.BinOp); isSub && sub.Op == token.SUB {
+					kx, ky = m.key(sub.X), "("+m.key(sub.Y)+"+"+ky+")"
+				} else if sub, isSub := bo.Y.(*ssa.BinOp); isSub && sub.Op == token.SUB {
+					kx, ky = "("+kx+"+"+m.key(sub.Y)+")", m.key(sub.X)
+				}
 				if !strings.Contains(kx+ky, ".Begin") {
 					continue
 				}
@@ -660,6 +667,7 @@ func init() {
 		ID: "C17", Title: "Chunk merge strategies never lose coverage", Level: "other",
 		Rules: []RuleDef{
 			{Name: "MERGE-STEP", What: "Adjacent and Compressor (splice form or accumulate form, recognised by roles, not names): the merge test compares the accumulated chunk's End with the current Begin; a merge keeps the accumulated Begin and the larger End (compared as whole virtual offsets), removes exactly one element, writes nothing else; Squash = {first Begin, running maximum of End}; Identity returns its argument", Floor: 10, Run: ruleChunkMergeStep},
+			{Name: "NEAR-CMP", What: "the Compressor's threshold is only ever an operand of a comparison: offset + near overflows for thresholds near MaxInt64 and such a Compressor merges nothing (added for a defect of the unchanged tree)", Floor: 1, Run: ruleNearCmp},
 			{Name: "SORTED-PRE", What: "every application of a merge strategy is to a chunk list sorted by begin offset", Floor: 5, Run: ruleSortedPre},
 			{Name: "CHUNKS-FRESH", What: "the list a Chunks method sorts and merges in place is built in that call, never an alias of the index's storage (added after sixth-round seed C17-f)", Floor: 2, Run: ruleChunksFresh},
 		},
